@@ -988,7 +988,32 @@ def extract_pool_locking(repo, parents):
     return out
 
 
-SECTIONS = [extract_models, extract_pool, extract_timeouts, extract_schemes, extract_exception_maps, extract_h2, extract_unasync, extract_h1_reuse, extract_pool_locking]
+def extract_establish_locking(repo, parents):
+    """the three connection classes that establish lazily: the `already established?` test is made with the connect lock held
+    (otherwise two threads - or two tasks of an HTTP/2-capable pool - that share the connection both establish it)"""
+    rows = []
+    for path, cls, lock, tests in [("httpcore/_async/connection.py", "AsyncHTTPConnection", "self._request_lock", ["self._connection is None"]),
+                                   ("httpcore/_async/socks_proxy.py", "AsyncSocks5Connection", "self._connect_lock", ["self._connection is None"]),
+                                   ("httpcore/_async/http_proxy.py", "AsyncTunnelHTTPConnection", "self._connect_lock", ["not self._connected"])]:
+        tree = _parse(repo, path)
+        fn = _find_func(tree, "handle_async_request", cls=cls)
+        found = []
+
+        def visit(node, locked):
+            for child in ast.iter_child_nodes(node):
+                l = locked or (isinstance(child, (ast.AsyncWith, ast.With)) and any(ast.unparse(i.context_expr) == lock for i in child.items))
+                if isinstance(child, ast.If) and ast.unparse(child.test) in tests:
+                    found.append(l)
+                visit(child, l)
+        visit(fn, False)
+        if len(found) != 1:
+            raise ExtractError(f"{cls}.handle_async_request: the test `{tests[0]}` was found {len(found)} times")
+        rows.append((cls, found[0]))
+    return ["/-- (class, is its `already established?` test lexically inside `async with <connect lock>:`) -/",
+            "def establishChecks : List (String × Bool) := " + lean_list([f'({lean_str(a)}, {"true" if b else "false"})' for a, b in rows])]
+
+
+SECTIONS = [extract_establish_locking, extract_models, extract_pool, extract_timeouts, extract_schemes, extract_exception_maps, extract_h2, extract_unasync, extract_h1_reuse, extract_pool_locking]
 
 
 def generate(repo):
